@@ -365,6 +365,64 @@ pub fn run_refusal<const N: usize>(tkind: crate::drivers::TKind, max: u32) -> Ve
     v
 }
 
+/// Two queues of one device with different maxima (QueueNumMax / queue_size are per-queue values):
+/// queue 0 (maximum `max0`) is created first with `N0` entries, then queue 1 (maximum `max1`) is
+/// asked for with N entries: accepted iff max1 >= N, whatever queue 0 allowed.
+pub fn run_refusal_second<const N: usize>(tkind: crate::drivers::TKind, max0: u32, max1: u32) -> Vec<(String, String)> {
+    struct VS<const N: usize> {
+        max1: u32,
+    }
+    impl<const N: usize> crate::drivers::TransportVisitor for VS<N> {
+        type Out = Vec<(String, String)>;
+        fn visit<T: virtio_drivers::transport::Transport + 'static>(self, mut t: T, w: &crate::drivers::DWorld) -> Self::Out {
+            let mut v = vec![];
+            let _ = t.begin_init(crate::c10::LabFeatures::all());
+            // Queue 0 first (4 entries: fits both maxima used below).
+            let q0 = crate::util::catch(|| VirtQueue::<LabHal, 4>::new(&mut t, 0, false, false, false));
+            if !matches!(q0, Ok(Ok(_))) {
+                v.push(("spurious-refusal".into(), format!("queue 0 with 4 entries was not created on {}", w.tkind.name())));
+                return v;
+            }
+            let allocs_before = hal::with(|h| h.dma_calls);
+            let r = crate::util::catch(|| VirtQueue::<LabHal, N>::new(&mut t, 1, false, false, false));
+            let allocs = hal::with(|h| h.dma_calls) - allocs_before;
+            match r {
+                Err(p) => v.push(("new-panicked".into(), p)),
+                Ok(Ok(q)) => {
+                    if self.max1 < N as u32 {
+                        v.push(("not-refused".into(), format!("queue 1 was created with {} entries on {} although the device's maximum for that queue is {} (queue 0 allows more)", N, w.tkind.name(), self.max1)));
+                    }
+                    t.queue_unset(1);
+                    drop(q);
+                }
+                Ok(Err(e)) => {
+                    if self.max1 >= N as u32 {
+                        v.push(("spurious-refusal".into(), format!("queue 1 with {} entries was refused ({:?}) on {} although the device's maximum for that queue is {} (queue 0 allows less)", N, e, w.tkind.name(), self.max1)));
+                    } else if allocs != 0 || w.dev.borrow().queue_addrs(1).is_some() {
+                        v.push(("refusal-allocated".into(), format!("the refused creation of queue 1 made {} dma_alloc calls / left it registered", allocs)));
+                    }
+                }
+            }
+            t.queue_unset(0);
+            if let Ok(Ok(q)) = q0 {
+                drop(q);
+            }
+            v
+        }
+    }
+    hal::reset();
+    crate::drivers::MAX_QUEUE_SIZE.with(|m| m.set(max0));
+    let w = crate::drivers::DWorld::new(crate::drivers::Kind::Console, tkind, crate::drivers::F_VERSION_1, crate::drivers::Kind::Console.default_config());
+    crate::drivers::MAX_QUEUE_SIZE.with(|m| m.set(64));
+    w.dev.borrow_mut().queues[1].max_size = max1;
+    let mut v = w.with_transport(VS::<N> { max1 });
+    for (k, d) in hal::with(|h| std::mem::take(&mut h.faults)) {
+        v.push((k, d));
+    }
+    crate::mmio::set_handler(None);
+    v
+}
+
 /// The transport says the queue is in use (a queue created earlier through the same transport is
 /// still live): a second creation for the same index must be refused with AlreadyUsed, allocate
 /// nothing and leave the live queue's registration as it is.
